@@ -11,6 +11,10 @@ use crate::sut::{guard, io_map_sorted, opts_default};
 use lipe_find_parser::compile;
 
 fn paths(r: &mut Rng) -> String {
+    let normalisable = ["/dev/mdt0/", "//", "a/b/", "./dev", "../x", " /dev/x", "/dev/x ", "", ".", "/DEV/MDT0", "/dev//mdt0", "~/mdt0", "%2fdev"];
+    if r.chance(1, 5) {
+        return normalisable[r.usize(normalisable.len())].to_string();
+    }
     let hostile = ["a\"b", "back\\slash", "/dev/with space", "x)y", "semi;colon", "line\nbreak", "caf\u{e9}/\u{1f600}", "\"", "\\", "tail\\", "~a~%", "#|c|#", "(lipe-scan)", "'q", "a\tb"];
     match r.below(6) {
         0 => "/dev/mapper/mdt0".into(),
